@@ -88,7 +88,8 @@ def make_content(R):
 
 
 def run_case(args):
-    vi, idx = args
+    vi, idx = args[:2]
+    shim = args[2] if len(args) > 2 else None
     R = rng('c01', idx)
     data, desc = make_content(R)
     lines = split_lines(data)
@@ -171,6 +172,12 @@ def run_case(args):
             files['out'] = bytes(len(exp_out))
         elif prev_kind == 'longer':
             files['out'] = exp_out + b'TRAILING-OLD-DATA\n' * R.choice([1, 300])
+    envx = None
+    fault = None
+    if shim and not form.startswith('vi') and exp_out is not None and R.random() < 0.15:
+        # the kernel accepts only part of one write(): the rest must follow, from where the short write stopped
+        fault = 'write:%d:%s' % (R.randint(1, 3), R.choice(['short1', 'shorthalf', 'shortallbut1']))
+        envx = {'LD_PRELOAD': shim, 'NEATVI_FAULT': fault, 'ASAN_OPTIONS': common.base_env('/tmp')['ASAN_OPTIONS'] + ':verify_asan_link_order=0'}
     if form.startswith('vi'):
         keys = b':w! out\n' if form == 'vi-w' else b'ZZ'
         if form == 'vi-ZZ':
@@ -181,11 +188,11 @@ def run_case(args):
                 keys = b'xu:w\n'
         r, d = common.run_vi(vi, keys, files=files, timeout=90)
     else:
-        r, d = common.run_ex(vi, script, files=files, timeout=90)
+        r, d = common.run_ex(vi, script, files=files, timeout=90, envx=envx)
     got = common.readf(d, target)
     got2 = common.readf(d, exp_second[0]) if exp_second else None
     common.rmcase(d)
-    wit = {'index': idx, 'content': data, 'desc': desc, 'form': form, 'range': (a, b), 'previous_target': prev_kind, 'script': script}
+    wit = {'index': idx, 'content': data, 'desc': desc, 'form': form, 'range': (a, b), 'previous_target': prev_kind, 'script': script, 'short_write': fault}
     rep = common.san_report(r)
     if rep:
         return (rep, 'sanitizer/crash while %s on %s: %s' % (form, desc, r.err[-400:].decode('latin-1')), wit, desc, form)
@@ -220,7 +227,9 @@ def run(tier, V):
     vi = build('asan')
     n = 2500 if tier == 'quick' else 30000
     base = common.seed() * 100003
-    res = pmap(run_case, [(vi, base + i) for i in range(n)])
+    import c03
+    shim = c03.build_shim()
+    res = pmap(run_case, [(vi, base + i, shim) for i in range(n)])
     forms = {}
     kinds = {}
     for key, what, wit, desc, form in res:
@@ -233,7 +242,7 @@ def run(tier, V):
     cov = {'evaluations': n, 'distinct_nontrivial': n - forms.get('x', 0), 'forms': forms, 'content_kinds': kinds,
            'rule': ('%d cases: contents over bytes 1..255 (ASCII / UTF-8 / arbitrary bytes) with directed boundaries (line lengths around 128, 1024, 2048, 4096, 8192; running sums crossing the 4096-byte write '
                     'batch at -1/0/+1; file sizes around k*1024 and 128*2^k; line counts 0,1,2,511..513,1023..1025,2049; with/without final newline) x operation (w!, a,bw!, w own path, wq, %%p, r in the middle + w, vi :w, vi x-u-:w, :xa and autowrite-at-quit of a buffer that is not the current one, :e! after the file changed on disk) '
-                    'x previous target (absent/shorter/equal/longer).  expected bytes computed from the input alone.  every case is distinct (seeded) and non-trivial (a file is written or printed and compared).' % n),
+                    'x previous target (absent/shorter/equal/longer) x (15%%) one write() cut short by the kernel.  expected bytes computed from the input alone.  every case is distinct (seeded) and non-trivial (a file is written or printed and compared).' % n),
            'samples': [{'desc': r[3], 'form': r[4]} for r in res[:5]]}
     assumptions = ['NUL bytes are excluded (the statement says NUL-free)', 'vi-mode forms are used with valid UTF-8 contents only',
                    'short writes and failing system calls belong to C03']
@@ -241,4 +250,5 @@ def run(tier, V):
 
 
 def REPLAY(w):
-    return run_case((build('asan'), w['index']))[:2]
+    import c03
+    return run_case((build('asan'), w['index'], c03.build_shim()))[:2]
